@@ -116,6 +116,24 @@ package netpoll
 //@   ghost after call (*manager).Run#1: runFailed = result != nil
 //@   loop 1 invariant mbase(m) && (m.status == 2 ==> mgood(m)) && !runFailed
 
+// SetLoadBalance: the balancing mode changes (or stays), and the balancer still describes exactly the manager's pollers - the pool needs no
+// re-initialisation to keep handing out running pollers after a change of mode.  The precondition covers the manager under construction
+// (newManager: no balancer yet, no pollers).
+//@ func (*randomLB).LoadBalance
+//@   property C18
+//@   ensures result == 1
+//@ func (*roundRobinLB).LoadBalance
+//@   property C18
+//@   ensures result == 0
+//@ func (*manager).SetLoadBalance
+//@   property C18
+//@   requires m.balance == nil || (lbkind(m) && lbsync(m))
+//@   ensures result == nil && lbkind(m) && lbsync(m) && sameslice(m.polls, old(m.polls)) && m.status == old(m.status) && m.numLoops == old(m.numLoops)
+//@   ensures lb == 1 ==> typeis(m.balance, *randomLB)
+//@   ensures lb == 0 ==> typeis(m.balance, *roundRobinLB)
+//@   ensures old(m.balance != nil && typeis(m.balance, *roundRobinLB)) && lb == 0 ==> m.balance == old(m.balance)
+//@   modifies m.balance
+
 //@ func (*manager).Close
 //@   property C18
 //@   ensures m.numLoops == 0 && m.balance == nil && len(m.polls) == 0
